@@ -734,7 +734,7 @@ theorem calm_sendLoop (n : Nat) (c : Conn) (h : Calm c) : Calm (sendLoop n c) :=
         · rename_i hl; rw [h2] at hl; cases hl
         · cases hdo : d.out with
           | unpicklable => exact absurd hdo hd
-          | result | usage _ | internal _ | rejected _ =>
+          | result | bigResult | cancelledInside | usage _ | internal _ | rejected _ =>
             simp only
             split
             · exact ⟨h1, h2, h3, hq'⟩
@@ -824,7 +824,7 @@ theorem sendLoop_keeps_inflight (n : Nat) (c : Conn) (h : ∀ d ∈ c.queue, d.o
         have hq' : ∀ d' ∈ q, d'.out ≠ .unpicklable := fun d' hd' => h d' (by rw [hq]; simp [hd'])
         cases hdo : d.out with
         | unpicklable => exact absurd hdo hd
-        | result | usage _ | internal _ | rejected _ =>
+        | result | bigResult | cancelledInside | usage _ | internal _ | rejected _ =>
           split
           · exact ⟨rfl, rfl⟩
           · simp only
@@ -873,6 +873,155 @@ theorem step_complete_keeps_others {cfg : Cfg} {c : Conn} (h : Inv cfg c) (k : N
         intro e; subst e; rw [hk] at hne; simp at hne
       exact (List.mem_erase_of_ne this).mpr hx
     · exact ⟨hx, rfl⟩
+
+
+/-! ## Vanished peers and handlers cancelled from inside never make `serve()` raise -/
+
+/-- Events that are not a protocol violation of the peer or an unpicklable result: calls, the close
+request, EOF/reset, `stop()`, handlers ending with a result or any exception (also a
+`CancelledError` from inside), the writer pausing, draining or being lost with any error. -/
+def Ev.harmless : Ev → Bool
+  | .frame (.call _ _ _) => true
+  | .frame (.close _) => true
+  | .eof => true
+  | .stop => true
+  | .complete _ o => o != .unpicklable
+  | .pause => true
+  | .resume => true
+  | .lose _ _ => true
+  | _ => false
+
+/-- `serve()` is not going to raise and no handler was cancelled. -/
+def Quiet (c : Conn) : Prop :=
+  c.failed = none ∧ c.cancelled = [] ∧ c.failAfterDrain = false ∧ ∀ d ∈ c.queue, d.out ≠ .unpicklable
+
+theorem quiet_endSend {c : Conn} (h : Quiet c) : Quiet (endSend c) := by
+  obtain ⟨h1, h2, h3, _⟩ := h
+  exact ⟨h1, h2, h3, fun _ hd => by simp [endSend] at hd⟩
+
+theorem quiet_sendLoop (n : Nat) (c : Conn) (h : Quiet c) : Quiet (sendLoop n c) := by
+  induction n generalizing c with
+  | zero => exact h
+  | succ n ih =>
+    obtain ⟨h1, h2, h3, h4⟩ := h
+    unfold sendLoop
+    split
+    · exact ⟨h1, h2, h3, h4⟩
+    · split
+      · split <;> exact ⟨h1, h2, h3, h4⟩
+      · rename_i d q hq
+        have hd : d.out ≠ .unpicklable := h4 d (by rw [hq]; simp)
+        have hq' : ∀ d' ∈ q, d'.out ≠ .unpicklable := fun d' hd' => h4 d' (by rw [hq]; simp [hd'])
+        cases hdo : d.out with
+        | unpicklable => exact absurd hdo hd
+        | result | bigResult | cancelledInside | usage _ | internal _ | rejected _ =>
+          split
+          · exact quiet_endSend (c := { c with queue := q, dropped := c.dropped ++ [d.call] }) ⟨h1, h2, h3, hq'⟩
+          · simp only
+            split
+            · exact ⟨h1, h2, h3, hq'⟩
+            · exact ih _ ⟨h1, h2, h3, hq'⟩
+
+theorem quiet_complete {c : Conn} (h : Quiet c) (call : Call) (o : Outcome) (ho : o ≠ .unpicklable) :
+    Quiet (complete c call o) := by
+  obtain ⟨h1, h2, h3, h4⟩ := h
+  unfold complete
+  split
+  · refine quiet_sendLoop _ _ ⟨h1, h2, h3, ?_⟩
+    intro d hd
+    simp only [List.mem_append, List.mem_singleton] at hd
+    rcases hd with hd | rfl
+    · exact h4 d hd
+    · exact ho
+  · exact ⟨h1, h2, h3, h4⟩
+
+theorem quiet_stopNow {c : Conn} (h : Quiet c) : Quiet (stopNow c) :=
+  quiet_sendLoop _ _ h
+
+theorem quiet_step {cfg : Cfg} {c : Conn} (h : Quiet c) (e : Ev) (he : e.harmless = true) : Quiet (step cfg c e) := by
+  have hs : ∀ c', Quiet c' → Quiet (settleRecv c') := by
+    intro c' h'
+    unfold settleRecv
+    split
+    · exact h'
+    · exact h'
+  apply hs
+  obtain ⟨h1, h2, h3, h4⟩ := h
+  cases e with
+  | frame f =>
+    cases f with
+    | call id name b =>
+      simp only [stepCore, stepFrame]
+      split
+      · exact ⟨h1, h2, h3, h4⟩
+      · cases hd : callDecision cfg.table name b with
+        | invoke => exact ⟨h1, h2, h3, h4⟩
+        | unknown | notAllowed | badArgs =>
+          exact quiet_complete (c := { c with recvd := c.recvd ++ [⟨c.recvd.length, id⟩] }) ⟨h1, h2, h3, h4⟩
+            ⟨c.recvd.length, id⟩ (.rejected _) (by simp)
+    | notCall id => simp [Ev.harmless] at he
+    | close id =>
+      simp only [stepCore, stepFrame]
+      split
+      · exact ⟨h1, h2, h3, h4⟩
+      · exact quiet_stopNow ⟨h1, h2, h3, h4⟩
+  | complete k o =>
+    have ho : o ≠ .unpicklable := by simpa [Ev.harmless] using he
+    simp only [stepCore]
+    split
+    · exact ⟨h1, h2, h3, h4⟩
+    · split
+      · refine quiet_complete (c := _) ?_ _ _ ho
+        exact ⟨h1, h2, h3, h4⟩
+      · exact ⟨h1, h2, h3, h4⟩
+  | pause => exact ⟨h1, h2, h3, h4⟩
+  | resume =>
+    simp only [stepCore]
+    split
+    · split
+      · rename_i hf; rw [h3] at hf; cases hf
+      · exact quiet_sendLoop _ _ ⟨h1, h2, h3, h4⟩
+    · exact ⟨h1, h2, h3, h4⟩
+  | lose k s =>
+    simp only [stepCore]
+    split
+    · split
+      · rename_i hf; rw [h3] at hf; cases hf
+      · exact quiet_endSend (c := { c with lost := true }) ⟨h1, h2, h3, h4⟩
+    · exact ⟨h1, h2, h3, h4⟩
+  | eof =>
+    simp only [stepCore]
+    split
+    · exact quiet_stopNow ⟨h1, h2, h3, h4⟩
+    · exact ⟨h1, h2, h3, h4⟩
+  | stop =>
+    simp only [stepCore]
+    split
+    · exact ⟨h1, h2, h3, h4⟩
+    · exact quiet_stopNow ⟨h1, h2, h3, h4⟩
+  | bytes _ => simp [Ev.harmless] at he
+  | badHeader => simp [Ev.harmless] at he
+
+theorem quiet_run {cfg : Cfg} (evs : List Ev) {c : Conn} (h : Quiet c) (he : ∀ e ∈ evs, e.harmless = true) :
+    Quiet (run cfg c evs) := by
+  unfold run
+  induction evs generalizing c with
+  | nil => exact h
+  | cons e es ih =>
+    exact ih (quiet_step h e (he e (by simp))) (fun e' he' => he e' (by simp [he']))
+
+theorem settleRecv_sent (c : Conn) : (settleRecv c).sent = c.sent := by
+  unfold settleRecv; split <;> rfl
+
+/-- The reply written when the handler of the `k`-th invoked call ends, on an idle working writer. -/
+theorem step_complete_writes {cfg : Cfg} {c : Conn} (h : Inv cfg c) (k : Nat) (o : Outcome) (call : Call)
+    (name : Name) (hk : c.invoked[k]? = some (call, name)) (hin : call ∈ c.inflight)
+    (ha : c.sendAlive = true) (hb : c.sendBlocked = false) (hl : c.lost = false) :
+    (step cfg c (.complete k o)).sent = c.sent ++ [⟨call, o.kind⟩] := by
+  unfold step
+  rw [settleRecv_sent]
+  simp only [stepCore, hk, hin, if_true]
+  exact complete_writes _ call o ha hb (h.idle.1 hb) hl
 
 
 end StepupModel.P.Rpc
